@@ -66,7 +66,9 @@ type File struct {
 
 // Consumable returns an in-memory consumable store holding the files.
 func Consumable(files []File) storage.Store {
-	st := localfs.New(afero.NewBasePathFs(afero.NewMemMapFs(), "/c"), localfs.WithRetry(false), localfs.WithLogger(Nop))
+	mem := afero.NewMemMapFs()
+	_ = mem.MkdirAll("/c", 0o755) // an empty directory is a valid (empty) tree
+	st := localfs.New(afero.NewBasePathFs(mem, "/c"), localfs.WithRetry(false), localfs.WithLogger(Nop))
 	for _, f := range files {
 		if err := st.Put(context.Background(), f.Name, bytes.NewReader(f.Data), storage.NoOverWrite); err != nil {
 			panic(fmt.Sprintf("consumable put %q: %v", f.Name, err))
